@@ -4639,6 +4639,10 @@ class ResponseFuture(object):
 
             if cb is None:
                 cb = partial(self._set_result_of_page, self._page_no, host, connection, pool)
+            else:
+                # the caller's callback gets the connection this message is really sent on
+                # (and its pool), so that it hands back exactly what was borrowed here
+                cb = partial(cb, connection, pool)
 
             self.request_encoded_size = connection.send_msg(message, request_id, cb=cb,
                                                             encoder=self._protocol_handler.encode_message,
@@ -4759,7 +4763,11 @@ class ResponseFuture(object):
         return task
 
     def _reprepare(self, prepare_message, host, connection, pool):
-        cb = partial(self._submit, self._execute_after_prepare, host, connection, pool)
+        # `connection` is the one the UNPREPARED answer came in on; it was already returned to
+        # the pool by _set_result.  The PREPARE borrows a connection of its own in _query (maybe
+        # another one: several connections per host, or the pool replaced it meanwhile), and
+        # that one is what _execute_after_prepare has to return: _query binds it to the callback.
+        cb = partial(self._submit, self._execute_after_prepare, host)
         request_id = self._query(host, prepare_message, cb=cb)
         if request_id is None:
             # try to submit the original prepared statement on some other host
